@@ -107,7 +107,7 @@ def _attempts(axioms, hyps, goal, timeout_ms, use_cvc5):
             continue
         if engine == "default":
             s = z3.Solver()
-            s.set("timeout", max(10000, int(timeout_ms * share)))
+            s.set("timeout", max(10000, int(timeout_ms * share)) if timeout_ms >= 10000 else timeout_ms)
         else:
             s = z3.SimpleSolver()
             s.set("timeout", max(2000, int(timeout_ms * share)))
